@@ -323,7 +323,10 @@ func allRowLoops(a *A, cd *codec) map[string][]*rowLoop {
 		f := w.fn(w.Root, n)
 		if f != nil {
 			a.touch(f)
-			out[n] = findRowLoops(w, f, isLen)
+			out[n] = findRowLoopsDeep(w, f, isLen)
+			for _, rl := range out[n] {
+				a.touch(rl.Fn)
+			}
 		}
 	}
 	return out
@@ -348,7 +351,7 @@ func c09R3R4(a *A, cd *codec) {
 		for i, rl := range ls {
 			key := fmt.Sprintf("skeleton@%s[loop#%d,%s]", fn, i+1, rl.Family)
 			if !rl.analyse() {
-				a.undecided(rule, key, w.posOf(rl.Len), "loop shape not recognised (presence test, NULL test, three loop variables, latch)")
+				a.undecided(rule, key, w.posOf(rl.Len), "loop shape not recognised (presence test %v, NULL test %v, ordinal %v, NULL index %v, offset %v, latch %v)", rl.Presence != nil, rl.Null != nil, rl.C != nil, rl.Idx != nil, rl.Off != nil, rl.Latch != nil)
 				continue
 			}
 			for _, cls := range []string{"absent", "null", "value"} {
@@ -375,7 +378,13 @@ func c09R3R4(a *A, cd *codec) {
 			a.check(ok1 && ok2 && strings.HasSuffix(tp, "Types") && strings.HasSuffix(mp, "Metadata") && strings.TrimSuffix(tp, "Types") == strings.TrimSuffix(mp, "Metadata"), rule, key+"[len-args]", w.posOf(rl.Len),
 				"length taken for Types[c], Metadata[c] of one table map at the current offset", fmt.Sprintf("the length call uses %q / %q (indexed by the ordinal: %v/%v) instead of Types[c]/Metadata[c] of one table map", tp, mp, ok1, ok2))
 			// R4: family consistency
-			dataField := familyOf(lastField(fieldPath(args[0])))
+			dataArg := args[0]
+			if p, isP := strip(dataArg).(*ssa.Parameter); isP && rl.Env != nil {
+				if av, bound := rl.Env[p]; bound {
+					dataArg = av
+				}
+			}
+			dataField := familyOf(lastField(fieldPath(resolve(dataArg))))
 			if fn == "Rows" {
 				dataField = rl.Family // the event body; images are cut out of it afterwards
 			}
